@@ -401,6 +401,14 @@ class CApiSim(ObjSim):
     }
     needs_scratch = True
 
+    def run(self, prop, profile, rng=None, replay=None, tier="quick"):
+        if profile == "sanitize":
+            # second sentence of C07: stand-alone sanitizer build of the emitted source (sim/accsim.py)
+            from .accsim import AccSim
+
+            return AccSim().run(prop, profile, rng=rng, replay=replay, tier=tier)
+        return super().run(prop, profile, rng=rng, replay=replay, tier=tier)
+
     def gen_world(self, rng, profile, tier):
         spec = objsim.gen_world(rng, profile, tier)
         omps = [rng.choice([0, 0, 0, 2, "auto"]) for _ in spec["contexts"]]
